@@ -67,13 +67,15 @@ def build(entry, ch, acc, max_faults=4, shapes=None, flavor='plain', avoid='~*:^
                 doc, exp = res
                 exps.append(exp)
     if envelope and ch.chance(envelope):
-        k = envelope_fault(doc, ch)
-        if k:
-            exps.append({'kind': 'env:' + k})
+        for _ in range(ch.choice([1, 1, 2, 3, 5])):
+            k = envelope_fault(doc, ch)
+            if k:
+                exps.append({'kind': 'env:' + k})
     return doc, exps
 
 
-ENVELOPE_FAULTS = ['se-count', 'se-id', 'ge-count', 'ge-id', 'iea-count', 'iea-id', 'gs-date', 'gs-time', 'st-dup', 'gs-dup', 'gs-code']
+ENVELOPE_FAULTS = ['se-count', 'se-id', 'ge-count', 'ge-id', 'iea-count', 'iea-id', 'gs-date', 'gs-time', 'st-dup', 'gs-dup', 'gs-code',
+                   'se-count-alpha', 'st-id-long', 'se-count', 'st-dup', 'st-many-codes']
 
 
 def envelope_fault(doc, ch):
@@ -86,17 +88,44 @@ def envelope_fault(doc, ch):
         return doc.segs[c[ch.integer(0, len(c) - 1)]] if c else None
     if kind == 'se-count':
         s = pick('SE')
-        s.vals[0] = [str(int(s.vals[0][0]) + ch.choice([1, 2, -1]))]
+        try:
+            s.vals[0] = [str(int(s.vals[0][0]) + ch.choice([1, 2, -1]))]
+        except ValueError:
+            s.vals[0] = ['77']
+    elif kind == 'st-many-codes':
+        # as many different set-level complaints as possible on one set: duplicate ST02, SE02 mismatch and over-long,
+        # SE01 not numeric (count wrong + invalid character)
+        c = idx('ST')
+        for a_, b_ in zip(c, c[1:]):
+            if 'GS' not in [x.id for x in doc.segs[a_:b_]]:
+                doc.segs[b_].vals[1] = list(doc.segs[a_].vals[1])
+                for x in doc.segs[b_:]:
+                    if x.id == 'SE':
+                        x.vals[0] = ['X1']
+                        x.vals[1] = [doc.segs[a_].vals[1][0] + '999999X']
+                        break
+                return kind
+        return None
+    elif kind == 'se-count-alpha':
+        pick('SE').vals[0] = [ch.choice(['X1', 'A', '1.5', ''])]
+    elif kind == 'st-id-long':
+        c = idx('ST')
+        st_ = doc.segs[c[ch.integer(0, len(c) - 1)]]
+        st_.vals[1] = [st_.vals[1][0] + '999999']
+        for x in doc.segs[doc.segs.index(st_):]:
+            if x.id == 'SE':
+                x.vals[1] = list(st_.vals[1])
+                break
     elif kind == 'se-id':
         pick('SE').vals[1] = ['9999']
     elif kind == 'ge-count':
         s = pick('GE')
-        s.vals[0] = [str(int(s.vals[0][0]) + 1)]
+        s.vals[0] = [str(int(s.vals[0][0]) + 1) if s.vals[0][0].isdigit() else '9']
     elif kind == 'ge-id':
         pick('GE').vals[1] = ['77']
     elif kind == 'iea-count':
         s = pick('IEA')
-        s.vals[0] = [str(int(s.vals[0][0]) + 1)]
+        s.vals[0] = [str(int(s.vals[0][0]) + 1) if s.vals[0][0].isdigit() else '9']
     elif kind == 'iea-id':
         pick('IEA').vals[1] = ['000000099']
     elif kind == 'gs-date':
